@@ -6,7 +6,7 @@ import math
 RULE = ("random pairs of planar segments and polylines (1..4 segments each, float data): transversal crossings strictly inside segments "
         "(several per pair), disjoint pairs with overlapping and with disjoint bounding boxes; a few degree-2/3 and rational pairs (soundness "
         "conditions only).  Non-trivial: more than one segment on a side or at least one crossing; distinct = distinct (A, B)."
-        " Also: single-span operands that clean() could reduce; the same pairs translated far from the origin (offsets 1e4..2.5e5).")
+        " Also: single-span operands that clean() could reduce; the same pairs translated far from the origin (offsets 1e4..2.5e5); weighted polylines (degree 1, positive weights: same crossing points).")
 EXPLANATION = ("L3: the exact crossing oracle (`geom.cross`, Cramer over Q on every pair of segments) lists all meeting pairs and classifies the "
                "pair as transversal / touching / degenerate; every returned pair is re-evaluated (|A(t)-B(u)| <= 1e-6, inside both intervals, no "
                "duplicates), disjoint curves must give the empty tuple, and every transversal crossing must be present.")
@@ -35,7 +35,23 @@ def run_case(ctx, case):
         if degenerate or touching:
             rec.case(case, nontrivial=False)
             return          # outside the guaranteed classes
-    rec.case(case, nontrivial=(len(A[1]) > 2 or len(B[1]) > 2 or bool(expected)))
+    # weighted polylines (degree 1, positive weights): the same point sets as the unweighted polylines, other parametrisation — the
+    # crossings are the same points
+    polyr = (not poly) and kv_info(A[0])[0] == 1 and kv_info(B[0])[0] == 1 and all(w > 0 for X in (A, B) if X[2] for w in X[2])
+    expected_pts = None
+    if polyr:
+        o = drv.call("geom.cross", list(sa[0]), [list(q) for q in sa[1]], None, list(sb[0]), [list(q) for q in sb[1]], None)
+        l3(rec, "geom.cross")
+        degenerate, touching, pairs = o[1]
+        rec.count("class", "weighted-" + ("degenerate" if degenerate else ("touching" if touching else ("crossing" if pairs else "disjoint"))))
+        if degenerate or touching:
+            rec.case(case, nontrivial=False)
+            return
+        expected_pts = []
+        for t, _ in pairs:
+            v = drv.call("curve.def", list(sa[0]), [list(q) for q in sa[1]], None, [t])
+            expected_pts.append([float(x) for x in v[1][0]])
+    rec.case(case, nontrivial=(len(A[1]) > 2 or len(B[1]) > 2 or bool(expected) or bool(expected_pts)))
     try:
         r = impl(lambda: with_timeout(lambda: Intersection.curve_and_curve(ca, cb), 60))
     except Timeout:
@@ -61,6 +77,16 @@ def run_case(ctx, case):
             if abs(got[i][0] - got[j][0]) < 1e-9 and abs(got[i][1] - got[j][1]) < 1e-9:
                 rec.violation("duplicate pairs returned", case, returned=got)
                 return
+    if expected_pts is not None:
+        if not expected_pts and got:
+            rec.violation("weighted polylines do not meet but pairs were returned", case, returned=got)
+            return
+        # completeness is NOT demanded here: the statement promises every crossing for straight segments and polylines, where the
+        # meeting parameters come from a linear problem; a weighted polyline is not affinely parametrised and the unchanged library
+        # itself misses crossings when the weights within a segment differ strongly (e.g. 8 : 2/3).  Counted, not judged.
+        missed = sum(1 for X in expected_pts
+                     if not any(math.sqrt(sum((float(a) - b) ** 2 for a, b in zip(ca(t), X))) < 1e-6 for t, _ in got))
+        rec.count("weighted-polylines", "all-crossings-found" if missed == 0 else "crossing-missed (not judged)")
     if expected is not None:
         if not expected and got:
             rec.violation("curves do not meet but pairs were returned", case, returned=got)
@@ -99,6 +125,11 @@ def run(ctx):
     def run_case_far(ctx_, case_):
         run_case_plain(ctx_, case_)
         c_ = de(case_)
+        if c_.get("label") in ("cross", "zigzag", "mixed", "doublepoint", "farboxes") and rng.random() < 0.3:
+            wts = lambda C: [F(rng.choice([1, 2, 3, 5, 8]), rng.choice([1, 2, 3])) for _ in C["P"]]       # noqa: E731
+            Aw = dict(U=c_["A"]["U"], P=[tuple(q) for q in c_["A"]["P"]], W=wts(c_["A"]))
+            Bw = dict(U=c_["B"]["U"], P=[tuple(q) for q in c_["B"]["P"]], W=(wts(c_["B"]) if rng.random() < 0.6 else None))
+            run_case_plain(ctx_, ser(dict(kind="pair", label=c_["label"] + "-weighted", A=Aw, B=Bw)))
         if c_.get("label") in ("cross", "zigzag", "doublepoint", "mixed") and rng.random() < 0.4:
             A_, B_ = far(rng, dict(U=c_["A"]["U"], P=[tuple(q) for q in c_["A"]["P"]], W=c_["A"]["W"]),
                          dict(U=c_["B"]["U"], P=[tuple(q) for q in c_["B"]["P"]], W=c_["B"]["W"]))
